@@ -8,6 +8,7 @@ INVARIANT FwLoopInv
 INVARIANT FwProgressInv
 INVARIANT FwFinalInv
 INVARIANT FwCountsBehavioursInv
+INVARIANT FwBigLemmaInv
 INVARIANT WalkerCountedInv
 INVARIANT WalkerCountInv
 INVARIANT WalkerEnabledInv
